@@ -60,6 +60,15 @@ TVerify4844 == Step(/\ Ev.fn = "verify4844"
                            pu == IF Ev.hasBlob THEN Ev.pUsed ELSE 0 IN
                        /\ InDomain(SafeExcess(IsOsaka(Ev), s, pe, pu, Ev.pBase))
                        /\ Ev.ok = ValidBlobHeader(IsOsaka(Ev), s, pe, pu, Ev.pBase, Ev.hExcess, Ev.hUsed))
+(* accessors of the active schedule; without an active schedule they report 0; the "latest"  *)
+(* maximum is the one in force once every scheduled fork has activated                       *)
+Horizon == 2000000000
+TBlobParams == Step(/\ Ev.fn = "blobparams"
+                    /\ LET i == ActiveIdx(Ev.slots, Ev.time)  j == ActiveIdx(Ev.slots, Horizon) IN
+                       /\ Ev.max    = IF i = 0 THEN 0 ELSE ActiveSched(Ev.slots, Ev.time).max
+                       /\ Ev.target = IF i = 0 THEN 0 ELSE ActiveSched(Ev.slots, Ev.time).target
+                       /\ Ev.maxGas = IF i = 0 THEN 0 ELSE ActiveSched(Ev.slots, Ev.time).max * GAS_PER_BLOB
+                       /\ Ev.latestMax = IF j = 0 THEN 0 ELSE ActiveSched(Ev.slots, Horizon).max)
 TIntrinsic == Step(/\ Ev.fn = "intrinsic"
                    /\ InDomain(TxWellFormed(Ev.fork, TxOf(Ev)) /\ SafeTx(TxOf(Ev)))
                    /\ Ev.out = IntrinsicGas(Ev.fork, TxOf(Ev)))
@@ -78,7 +87,7 @@ TConst == Step(/\ Ev.fn = "consts"
                /\ Ev.minBlobFee = MIN_BASE_FEE_PER_BLOB_GAS /\ Ev.blobBaseCost = BLOB_BASE_COST)
 
 TraceInit == l = 1
-TraceNext == TBaseFee \/ TVerify1559 \/ TGasLimit \/ TBlobFee \/ TExcess \/ TVerify4844
+TraceNext == TBaseFee \/ TVerify1559 \/ TGasLimit \/ TBlobFee \/ TBlobParams \/ TExcess \/ TVerify4844
              \/ TIntrinsic \/ TFloor \/ TParams \/ TConst
 TraceSpec == TraceInit /\ [][TraceNext]_l
 
